@@ -1118,3 +1118,96 @@ package keeper
 //@   ensures[C17.get_executors_bech32] execs == m.executors
 //@   panics never
 
+// ---------------------------------------------------------------------------------------------
+// precompiles_staking.go — state-changing methods (C11). Ghost log of the native messages handed to the SDK message servers
+// (prelude/4a_cpc2_native_staking.spec): nativeCalls[0] entries; entry n has a kind (1 Delegate, 2 Undelegate,
+// 3 BeginRedelegate, 4 WithdrawDelegatorReward), delegator, validator(s), denomination, amount, store layer.
+// For every state-changing executor: every native message submitted during the call carries the CALLER as delegator
+// (bech32Bytes(delegator string) == the 20 bytes of caller.Address()), runs on the call's own store layer, and — for
+// delegate / undelegate / redelegate / withdrawReward — is exactly ONE message with the validator(s) and amount of the call
+// data, the bond denomination, and a positive amount; a non-positive amount fails before any native call.
+// The SDK message servers are assumed (they ARE the native path); the log/event bridge (getSdkEventsFromEventManager,
+// autoEmitEventsFromSdkEvents) is summarised as TRUSTED below: it reads the event manager and appends EVM logs, it submits
+// no native message (event/log correspondence: not decided).
+// ---------------------------------------------------------------------------------------------
+//@ import stakingtypes "github.com/cosmos/cosmos-sdk/x/staking/types"
+
+//@ func (m stakingCustomPrecompiledContract) getSdkEventsFromEventManager(em sdk.EventManagerI) []normalizedEvent
+//@   assumed
+//@   modifies nothing
+//@   panics any
+//@ func (m stakingCustomPrecompiledContract) autoEmitEventsFromSdkEvents(em sdk.EventManagerI, originalEventCounts int, delegator sdk.AccAddress, env cpcExecutorEnv) (err error)
+//@   assumed
+//@   modifies sdbLogCount[payload(env.evm.StateDB)], sdbLogAddr[payload(env.evm.StateDB)], sdbLogNTopics[payload(env.evm.StateDB)], sdbLogT0[payload(env.evm.StateDB)], sdbLogT1[payload(env.evm.StateDB)], sdbLogT2[payload(env.evm.StateDB)], sdbLogT3[payload(env.evm.StateDB)], sdbLogData[payload(env.evm.StateDB)], sdbOther[payload(env.evm.StateDB)]
+//@   panics any
+
+//@ func (e stakingCustomPrecompiledContractRwDelegate) delegate(ctx sdk.Context, delegator sdk.AccAddress, validator sdk.ValAddress, amount sdk.Coin) (err error)
+//@   requires e.contract != nil
+//@   modifies nativeCalls, nativeKind, nativeDelegator, nativeValidator, nativeValidatorSrc, nativeDenom, nativeAmount, nativeLayer, stakingVersion[layer(ctx)], distVersion[layer(ctx)], bankBal[layer(ctx)], authVersion[layer(ctx)], evlog[payload(ctx.EventManager())]
+//@   ensures[C11.delegate_at_most_one_message] (nativeCalls[0] == old(nativeCalls[0]) || nativeCalls[0] == old(nativeCalls[0]) + 1) && (forall n int :: (0 <= n && n < old(nativeCalls[0])) ==> (nativeKind[n] == old(nativeKind[n]) && nativeDelegator[n] == old(nativeDelegator[n]) && nativeValidator[n] == old(nativeValidator[n]) && nativeValidatorSrc[n] == old(nativeValidatorSrc[n]) && nativeDenom[n] == old(nativeDenom[n]) && nativeAmount[n] == old(nativeAmount[n]) && nativeLayer[n] == old(nativeLayer[n])))
+//@   ensures[C11.delegate_success_means_submitted] err == nil ==> nativeCalls[0] == old(nativeCalls[0]) + 1
+//@   ensures[C11.delegate_message] nativeCalls[0] == old(nativeCalls[0]) + 1 ==> (nativeKind[old(nativeCalls[0])] == 1 && bech32Bytes(nativeDelegator[old(nativeCalls[0])]) == bytes(delegator) && nativeValidator[old(nativeCalls[0])] == codecStr(2, bytes(validator)) && nativeDenom[old(nativeCalls[0])] == amount.Denom && nativeAmount[old(nativeCalls[0])] == iv(amount.Amount) && nativeLayer[old(nativeCalls[0])] == layer(ctx))
+
+//@ func (e stakingCustomPrecompiledContractRwUnDelegate) undelegate(ctx sdk.Context, delegator sdk.AccAddress, validator sdk.ValAddress, amount sdk.Coin) (err error)
+//@   requires e.contract != nil
+//@   modifies nativeCalls, nativeKind, nativeDelegator, nativeValidator, nativeValidatorSrc, nativeDenom, nativeAmount, nativeLayer, stakingVersion[layer(ctx)], distVersion[layer(ctx)], bankBal[layer(ctx)], authVersion[layer(ctx)], evlog[payload(ctx.EventManager())]
+//@   ensures[C11.undelegate_at_most_one_message] (nativeCalls[0] == old(nativeCalls[0]) || nativeCalls[0] == old(nativeCalls[0]) + 1) && (forall n int :: (0 <= n && n < old(nativeCalls[0])) ==> (nativeKind[n] == old(nativeKind[n]) && nativeDelegator[n] == old(nativeDelegator[n]) && nativeValidator[n] == old(nativeValidator[n]) && nativeValidatorSrc[n] == old(nativeValidatorSrc[n]) && nativeDenom[n] == old(nativeDenom[n]) && nativeAmount[n] == old(nativeAmount[n]) && nativeLayer[n] == old(nativeLayer[n])))
+//@   ensures[C11.undelegate_success_means_submitted] err == nil ==> nativeCalls[0] == old(nativeCalls[0]) + 1
+//@   ensures[C11.undelegate_message] nativeCalls[0] == old(nativeCalls[0]) + 1 ==> (nativeKind[old(nativeCalls[0])] == 2 && bech32Bytes(nativeDelegator[old(nativeCalls[0])]) == bytes(delegator) && nativeValidator[old(nativeCalls[0])] == codecStr(2, bytes(validator)) && nativeDenom[old(nativeCalls[0])] == amount.Denom && nativeAmount[old(nativeCalls[0])] == iv(amount.Amount) && nativeLayer[old(nativeCalls[0])] == layer(ctx))
+
+//@ func (e stakingCustomPrecompiledContractRwReDelegate) redelegate(ctx sdk.Context, delegator sdk.AccAddress, srcVal, dstVal sdk.ValAddress, amount sdk.Coin) (err error)
+//@   requires e.contract != nil
+//@   modifies nativeCalls, nativeKind, nativeDelegator, nativeValidator, nativeValidatorSrc, nativeDenom, nativeAmount, nativeLayer, stakingVersion[layer(ctx)], distVersion[layer(ctx)], bankBal[layer(ctx)], authVersion[layer(ctx)], evlog[payload(ctx.EventManager())]
+//@   ensures[C11.redelegate_at_most_one_message] (nativeCalls[0] == old(nativeCalls[0]) || nativeCalls[0] == old(nativeCalls[0]) + 1) && (forall n int :: (0 <= n && n < old(nativeCalls[0])) ==> (nativeKind[n] == old(nativeKind[n]) && nativeDelegator[n] == old(nativeDelegator[n]) && nativeValidator[n] == old(nativeValidator[n]) && nativeValidatorSrc[n] == old(nativeValidatorSrc[n]) && nativeDenom[n] == old(nativeDenom[n]) && nativeAmount[n] == old(nativeAmount[n]) && nativeLayer[n] == old(nativeLayer[n])))
+//@   ensures[C11.redelegate_success_means_submitted] err == nil ==> nativeCalls[0] == old(nativeCalls[0]) + 1
+//@   ensures[C11.redelegate_message] nativeCalls[0] == old(nativeCalls[0]) + 1 ==> (nativeKind[old(nativeCalls[0])] == 3 && bech32Bytes(nativeDelegator[old(nativeCalls[0])]) == bytes(delegator) && nativeValidatorSrc[old(nativeCalls[0])] == codecStr(2, bytes(srcVal)) && nativeValidator[old(nativeCalls[0])] == codecStr(2, bytes(dstVal)) && nativeDenom[old(nativeCalls[0])] == amount.Denom && nativeAmount[old(nativeCalls[0])] == iv(amount.Amount) && nativeLayer[old(nativeCalls[0])] == layer(ctx))
+
+//@ func (e stakingCustomPrecompiledContractRwWithdrawReward) withdrawRewardWithFormattedAddress(ctx sdk.Context, delegator, validator string) (err error)
+//@   requires e.contract != nil
+//@   modifies nativeCalls, nativeKind, nativeDelegator, nativeValidator, nativeValidatorSrc, nativeDenom, nativeAmount, nativeLayer, stakingVersion[layer(ctx)], distVersion[layer(ctx)], bankBal[layer(ctx)], authVersion[layer(ctx)], evlog[payload(ctx.EventManager())]
+//@   ensures[C11.withdrawRewardWithFormattedAddress_at_most_one_message] (nativeCalls[0] == old(nativeCalls[0]) || nativeCalls[0] == old(nativeCalls[0]) + 1) && (forall n int :: (0 <= n && n < old(nativeCalls[0])) ==> (nativeKind[n] == old(nativeKind[n]) && nativeDelegator[n] == old(nativeDelegator[n]) && nativeValidator[n] == old(nativeValidator[n]) && nativeValidatorSrc[n] == old(nativeValidatorSrc[n]) && nativeDenom[n] == old(nativeDenom[n]) && nativeAmount[n] == old(nativeAmount[n]) && nativeLayer[n] == old(nativeLayer[n])))
+//@   ensures[C11.withdrawRewardWithFormattedAddress_success_means_submitted] err == nil ==> nativeCalls[0] == old(nativeCalls[0]) + 1
+//@   ensures[C11.withdrawRewardWithFormattedAddress_message] nativeCalls[0] == old(nativeCalls[0]) + 1 ==> (nativeKind[old(nativeCalls[0])] == 4 && nativeDelegator[old(nativeCalls[0])] == delegator && nativeValidator[old(nativeCalls[0])] == validator && nativeLayer[old(nativeCalls[0])] == layer(ctx))
+
+//@ func (e stakingCustomPrecompiledContractRwWithdrawReward) withdrawReward(ctx sdk.Context, delegator sdk.AccAddress, validator sdk.ValAddress) (err error)
+//@   requires e.contract != nil
+//@   modifies nativeCalls, nativeKind, nativeDelegator, nativeValidator, nativeValidatorSrc, nativeDenom, nativeAmount, nativeLayer, stakingVersion[layer(ctx)], distVersion[layer(ctx)], bankBal[layer(ctx)], authVersion[layer(ctx)], evlog[payload(ctx.EventManager())]
+//@   ensures[C11.withdrawReward_at_most_one_message] (nativeCalls[0] == old(nativeCalls[0]) || nativeCalls[0] == old(nativeCalls[0]) + 1) && (forall n int :: (0 <= n && n < old(nativeCalls[0])) ==> (nativeKind[n] == old(nativeKind[n]) && nativeDelegator[n] == old(nativeDelegator[n]) && nativeValidator[n] == old(nativeValidator[n]) && nativeValidatorSrc[n] == old(nativeValidatorSrc[n]) && nativeDenom[n] == old(nativeDenom[n]) && nativeAmount[n] == old(nativeAmount[n]) && nativeLayer[n] == old(nativeLayer[n])))
+//@   ensures[C11.withdrawReward_success_means_submitted] err == nil ==> nativeCalls[0] == old(nativeCalls[0]) + 1
+//@   ensures[C11.withdrawReward_message] nativeCalls[0] == old(nativeCalls[0]) + 1 ==> (nativeKind[old(nativeCalls[0])] == 4 && bech32Bytes(nativeDelegator[old(nativeCalls[0])]) == bytes(delegator) && nativeValidator[old(nativeCalls[0])] == codecStr(2, bytes(validator)) && nativeLayer[old(nativeCalls[0])] == layer(ctx))
+
+//@ func (e stakingCustomPrecompiledContractRwDelegate) Execute(caller corevm.ContractRef, contractAddr common.Address, input []byte, env cpcExecutorEnv) (ret []byte, err error)
+//@   requires caller != nil && e.contract != nil && env.evm != nil && env.evm.StateDB != nil
+//@   modifies nativeCalls, nativeKind, nativeDelegator, nativeValidator, nativeValidatorSrc, nativeDenom, nativeAmount, nativeLayer, stakingVersion[layer(env.ctx)], distVersion[layer(env.ctx)], bankBal[layer(env.ctx)], authVersion[layer(env.ctx)], evlog[payload(env.ctx.EventManager())], sdbLogCount[payload(env.evm.StateDB)], sdbLogAddr[payload(env.evm.StateDB)], sdbLogNTopics[payload(env.evm.StateDB)], sdbLogT0[payload(env.evm.StateDB)], sdbLogT1[payload(env.evm.StateDB)], sdbLogT2[payload(env.evm.StateDB)], sdbLogT3[payload(env.evm.StateDB)], sdbLogData[payload(env.evm.StateDB)], sdbOther[payload(env.evm.StateDB)]
+//@   ensures[C11.delegate_call_at_most_one_message] (nativeCalls[0] == old(nativeCalls[0]) || nativeCalls[0] == old(nativeCalls[0]) + 1) && (forall n int :: (0 <= n && n < old(nativeCalls[0])) ==> (nativeKind[n] == old(nativeKind[n]) && nativeDelegator[n] == old(nativeDelegator[n]) && nativeValidator[n] == old(nativeValidator[n]) && nativeValidatorSrc[n] == old(nativeValidatorSrc[n]) && nativeDenom[n] == old(nativeDenom[n]) && nativeAmount[n] == old(nativeAmount[n]) && nativeLayer[n] == old(nativeLayer[n])))
+//@   ensures[C11.delegate_call_success_means_submitted] err == nil ==> nativeCalls[0] == old(nativeCalls[0]) + 1
+//@   ensures[C11.delegate_call_for_caller_only] nativeCalls[0] == old(nativeCalls[0]) + 1 ==> (bech32Bytes(nativeDelegator[old(nativeCalls[0])]) == addrBytes(caller.Address()) && nativeLayer[old(nativeCalls[0])] == layer(env.ctx))
+//@   ensures[C11.delegate_call_message] nativeCalls[0] == old(nativeCalls[0]) + 1 ==> (nativeKind[old(nativeCalls[0])] == 1 && nativeValidator[old(nativeCalls[0])] == codecStr(2, addrBytes(abiArgAddr(bytes(input), 0))) && nativeDenom[old(nativeCalls[0])] == stakingBondDenom(old(stakingVersion[layer(env.ctx)])) && nativeAmount[old(nativeCalls[0])] == abiArgUint(bytes(input), 1) && nativeAmount[old(nativeCalls[0])] > 0)
+//@   ensures[C11.delegate_call_positive_amount_first] abiArgUint(bytes(input), 1) <= 0 ==> (err != nil && nativeCalls[0] == old(nativeCalls[0]))
+
+//@ func (e stakingCustomPrecompiledContractRwUnDelegate) Execute(caller corevm.ContractRef, contractAddr common.Address, input []byte, env cpcExecutorEnv) (ret []byte, err error)
+//@   requires caller != nil && e.contract != nil && env.evm != nil && env.evm.StateDB != nil
+//@   modifies nativeCalls, nativeKind, nativeDelegator, nativeValidator, nativeValidatorSrc, nativeDenom, nativeAmount, nativeLayer, stakingVersion[layer(env.ctx)], distVersion[layer(env.ctx)], bankBal[layer(env.ctx)], authVersion[layer(env.ctx)], evlog[payload(env.ctx.EventManager())], sdbLogCount[payload(env.evm.StateDB)], sdbLogAddr[payload(env.evm.StateDB)], sdbLogNTopics[payload(env.evm.StateDB)], sdbLogT0[payload(env.evm.StateDB)], sdbLogT1[payload(env.evm.StateDB)], sdbLogT2[payload(env.evm.StateDB)], sdbLogT3[payload(env.evm.StateDB)], sdbLogData[payload(env.evm.StateDB)], sdbOther[payload(env.evm.StateDB)]
+//@   ensures[C11.undelegate_call_at_most_one_message] (nativeCalls[0] == old(nativeCalls[0]) || nativeCalls[0] == old(nativeCalls[0]) + 1) && (forall n int :: (0 <= n && n < old(nativeCalls[0])) ==> (nativeKind[n] == old(nativeKind[n]) && nativeDelegator[n] == old(nativeDelegator[n]) && nativeValidator[n] == old(nativeValidator[n]) && nativeValidatorSrc[n] == old(nativeValidatorSrc[n]) && nativeDenom[n] == old(nativeDenom[n]) && nativeAmount[n] == old(nativeAmount[n]) && nativeLayer[n] == old(nativeLayer[n])))
+//@   ensures[C11.undelegate_call_success_means_submitted] err == nil ==> nativeCalls[0] == old(nativeCalls[0]) + 1
+//@   ensures[C11.undelegate_call_for_caller_only] nativeCalls[0] == old(nativeCalls[0]) + 1 ==> (bech32Bytes(nativeDelegator[old(nativeCalls[0])]) == addrBytes(caller.Address()) && nativeLayer[old(nativeCalls[0])] == layer(env.ctx))
+//@   ensures[C11.undelegate_call_message] nativeCalls[0] == old(nativeCalls[0]) + 1 ==> (nativeKind[old(nativeCalls[0])] == 2 && nativeValidator[old(nativeCalls[0])] == codecStr(2, addrBytes(abiArgAddr(bytes(input), 0))) && nativeDenom[old(nativeCalls[0])] == stakingBondDenom(old(stakingVersion[layer(env.ctx)])) && nativeAmount[old(nativeCalls[0])] == abiArgUint(bytes(input), 1) && nativeAmount[old(nativeCalls[0])] > 0)
+//@   ensures[C11.undelegate_call_positive_amount_first] abiArgUint(bytes(input), 1) <= 0 ==> (err != nil && nativeCalls[0] == old(nativeCalls[0]))
+
+//@ func (e stakingCustomPrecompiledContractRwReDelegate) Execute(caller corevm.ContractRef, contractAddr common.Address, input []byte, env cpcExecutorEnv) (ret []byte, err error)
+//@   requires caller != nil && e.contract != nil && env.evm != nil && env.evm.StateDB != nil
+//@   modifies nativeCalls, nativeKind, nativeDelegator, nativeValidator, nativeValidatorSrc, nativeDenom, nativeAmount, nativeLayer, stakingVersion[layer(env.ctx)], distVersion[layer(env.ctx)], bankBal[layer(env.ctx)], authVersion[layer(env.ctx)], evlog[payload(env.ctx.EventManager())], sdbLogCount[payload(env.evm.StateDB)], sdbLogAddr[payload(env.evm.StateDB)], sdbLogNTopics[payload(env.evm.StateDB)], sdbLogT0[payload(env.evm.StateDB)], sdbLogT1[payload(env.evm.StateDB)], sdbLogT2[payload(env.evm.StateDB)], sdbLogT3[payload(env.evm.StateDB)], sdbLogData[payload(env.evm.StateDB)], sdbOther[payload(env.evm.StateDB)]
+//@   ensures[C11.redelegate_call_at_most_one_message] (nativeCalls[0] == old(nativeCalls[0]) || nativeCalls[0] == old(nativeCalls[0]) + 1) && (forall n int :: (0 <= n && n < old(nativeCalls[0])) ==> (nativeKind[n] == old(nativeKind[n]) && nativeDelegator[n] == old(nativeDelegator[n]) && nativeValidator[n] == old(nativeValidator[n]) && nativeValidatorSrc[n] == old(nativeValidatorSrc[n]) && nativeDenom[n] == old(nativeDenom[n]) && nativeAmount[n] == old(nativeAmount[n]) && nativeLayer[n] == old(nativeLayer[n])))
+//@   ensures[C11.redelegate_call_success_means_submitted] err == nil ==> nativeCalls[0] == old(nativeCalls[0]) + 1
+//@   ensures[C11.redelegate_call_for_caller_only] nativeCalls[0] == old(nativeCalls[0]) + 1 ==> (bech32Bytes(nativeDelegator[old(nativeCalls[0])]) == addrBytes(caller.Address()) && nativeLayer[old(nativeCalls[0])] == layer(env.ctx))
+//@   ensures[C11.redelegate_call_message] nativeCalls[0] == old(nativeCalls[0]) + 1 ==> (nativeKind[old(nativeCalls[0])] == 3 && nativeValidatorSrc[old(nativeCalls[0])] == codecStr(2, addrBytes(abiArgAddr(bytes(input), 0))) && nativeValidator[old(nativeCalls[0])] == codecStr(2, addrBytes(abiArgAddr(bytes(input), 1))) && nativeDenom[old(nativeCalls[0])] == stakingBondDenom(old(stakingVersion[layer(env.ctx)])) && nativeAmount[old(nativeCalls[0])] == abiArgUint(bytes(input), 2) && nativeAmount[old(nativeCalls[0])] > 0)
+//@   ensures[C11.redelegate_call_positive_amount_first] abiArgUint(bytes(input), 2) <= 0 ==> (err != nil && nativeCalls[0] == old(nativeCalls[0]))
+
+//@ func (e stakingCustomPrecompiledContractRwWithdrawReward) Execute(caller corevm.ContractRef, contractAddr common.Address, input []byte, env cpcExecutorEnv) (ret []byte, err error)
+//@   requires caller != nil && e.contract != nil && env.evm != nil && env.evm.StateDB != nil
+//@   modifies nativeCalls, nativeKind, nativeDelegator, nativeValidator, nativeValidatorSrc, nativeDenom, nativeAmount, nativeLayer, stakingVersion[layer(env.ctx)], distVersion[layer(env.ctx)], bankBal[layer(env.ctx)], authVersion[layer(env.ctx)], evlog[payload(env.ctx.EventManager())], sdbLogCount[payload(env.evm.StateDB)], sdbLogAddr[payload(env.evm.StateDB)], sdbLogNTopics[payload(env.evm.StateDB)], sdbLogT0[payload(env.evm.StateDB)], sdbLogT1[payload(env.evm.StateDB)], sdbLogT2[payload(env.evm.StateDB)], sdbLogT3[payload(env.evm.StateDB)], sdbLogData[payload(env.evm.StateDB)], sdbOther[payload(env.evm.StateDB)]
+//@   ensures[C11.withdraw_reward_call_at_most_one_message] (nativeCalls[0] == old(nativeCalls[0]) || nativeCalls[0] == old(nativeCalls[0]) + 1) && (forall n int :: (0 <= n && n < old(nativeCalls[0])) ==> (nativeKind[n] == old(nativeKind[n]) && nativeDelegator[n] == old(nativeDelegator[n]) && nativeValidator[n] == old(nativeValidator[n]) && nativeValidatorSrc[n] == old(nativeValidatorSrc[n]) && nativeDenom[n] == old(nativeDenom[n]) && nativeAmount[n] == old(nativeAmount[n]) && nativeLayer[n] == old(nativeLayer[n])))
+//@   ensures[C11.withdraw_reward_call_success_means_submitted] err == nil ==> nativeCalls[0] == old(nativeCalls[0]) + 1
+//@   ensures[C11.withdraw_reward_call_for_caller_only] nativeCalls[0] == old(nativeCalls[0]) + 1 ==> (bech32Bytes(nativeDelegator[old(nativeCalls[0])]) == addrBytes(caller.Address()) && nativeLayer[old(nativeCalls[0])] == layer(env.ctx))
+//@   ensures[C11.withdraw_reward_call_message] nativeCalls[0] == old(nativeCalls[0]) + 1 ==> (nativeKind[old(nativeCalls[0])] == 4 && nativeValidator[old(nativeCalls[0])] == codecStr(2, addrBytes(abiArgAddr(bytes(input), 0))))
+
